@@ -219,5 +219,17 @@ _W3 = {
             "race mode: the same scenarios as free goroutines under -race."),
     "C17": " Third-wave additions: a second lifecycle call (Shutdown again after a timed-out one, or concurrently); each Shutdown that returns nil owes everything; lifecycle actions at time 0, before Serve is called.",
 }
+_W4 = {
+    "C07": " Fourth-wave additions: the call under test may follow a call abandoned by timeout or by its context; the serial test port's Flush discards what has arrived.",
+    "C08": " Fourth-wave additions: injected I/O errors carry the identities real transports report (ECONNRESET, EPIPE, ECONNABORTED, net.ErrClosed, io.ErrClosedPipe, io.ErrUnexpectedEOF, bare or in *net.OpError); floods that never end; floods that begin with a well-formed frame of another conversation; serial port variant with SetReadDeadline and without Flush.",
+    "C11": " Fourth-wave additions: lookups 2048*k, 32768 and 65535 addresses away from the window in both directions.",
+    "C12": " Fourth-wave additions: corruption kind leading_bytes (1-3 foreign bytes, or the tail of a frame like this one, in front of the valid frame).",
+    "C13": " Fourth-wave additions: in a third of the runs the extraction ops go through one request value made by the request builder, with permuted field lists; values handed out earlier are re-rendered after all later extractions; definitions listed twice and several definitions on one register; extraction results are compared as sets of (definition, value, failed) triples, identical calls by exact rendering.",
+    "C14": " Fourth-wave additions: logging hooks on the shared client in a third of the runs, every hook call a scheduling point; the hooks of two request calls must not interleave.",
+    "C17": " Fourth-wave additions: server-side connections fail a second Close (net.ErrClosed) in half of the runs; a connection already reported to the close callback does not count as live.",
+    "C19": " Fourth-wave additions: read timeouts reported as *net.OpError wrapping the sentinel; serial port variant with SetReadDeadline and without Flush; the hook-less twin built with WithSerialHooks(nil).",
+}
 for _k, _v in _W3.items():
+    META[_k]["rule"] += _v
+for _k, _v in _W4.items():
     META[_k]["rule"] += _v
